@@ -21,6 +21,8 @@ import (
 	rdr "github.com/named-data/ndnd/std/ndn/rdr_2024"
 	spec "github.com/named-data/ndnd/std/ndn/spec_2022"
 	"github.com/named-data/ndnd/std/object"
+	sec "github.com/named-data/ndnd/std/security"
+	"github.com/named-data/ndnd/std/utils"
 	"verif/mc/explore"
 	"verif/mc/report"
 	"verif/shim/vsched"
@@ -84,6 +86,28 @@ type scenario struct {
 	// answering an Interest expressed at virtual time t reaches the consumer at t+RTT at the
 	// earliest. 0 = the instant network of the other families.
 	RTT time.Duration
+	// Ext: packets ANOTHER application put into the producer's store next to the published object:
+	// well-formed Data named <object>/<version>/seg=<k> with k beyond the object's FinalBlockId
+	// (a producer that answers past the end). A consumer that fetches 0..FinalBlockId never asks
+	// for them; they are served like any stored packet to whoever does.
+	Ext []ext
+	// Phantom: the network answers EVERY segment Interest for a published (object, version) whose
+	// segment number lies beyond that publication's FinalBlockId with a harness-made Data of that
+	// name (some producer on the path answers past the end). No such Interest, no such answer.
+	Phantom bool
+}
+
+// ext is one foreign packet (scenario.Ext).
+type ext struct {
+	Obj string
+	Ver int64
+	Seg int
+	N   int // content bytes (0: empty content)
+	FB  int // FinalBlockId it carries (-1: none)
+}
+
+func (e ext) String() string {
+	return fmt.Sprintf("X(%s v%d seg%d n%d fb%d)", e.Obj, uint64(e.Ver), e.Seg, e.N, e.FB)
 }
 
 // step is one element of a scenario's sequential part: a Consume, a Produce or a clock advance,
@@ -171,6 +195,12 @@ func (sc *scenario) String() string {
 	p = append(p, sc.Store)
 	for _, x := range sc.Pubs {
 		p = append(p, x.String())
+	}
+	for _, x := range sc.Ext {
+		p = append(p, x.String())
+	}
+	if sc.Phantom {
+		p = append(p, "phantom")
 	}
 	for _, x := range sc.Rems {
 		p = append(p, "R("+x.String()+")")
@@ -271,7 +301,11 @@ type inst struct {
 	faceLog    []string
 	spurious   map[string]int // Interest name -> timeouts that hit a packet the network had NOT lost, sooner than rttMax after it was sent
 	spurNote   string
-	held       []*heldWire // wires handed out by the producer's store, re-compared after later store transactions
+	held       []*heldWire    // wires handed out by the producer's store, re-compared after later store transactions
+	finalSeg   map[string]int // "<object>/<version>" -> FinalBlockId of its latest publication
+	pastReq    map[string]int // Interest name -> times the consumer expressed it although its segment number lies beyond FinalBlockId
+	pastNote   string
+	phantoms   int
 	churned    bool
 	dynUsed    []bool
 	dynLog     []string
@@ -532,7 +566,7 @@ func (s *sys) New() any {
 	vtime.Reset(false)
 	vsched.Reset()
 	return &inst{s: s, ref: map[string]*refPkt{}, removed: map[string]bool{}, pubBytes: map[string][]byte{},
-		timeouts: map[string]int{}, toNames: map[string]enc.Name{}, fatal: map[string]int{}, nonces: map[string]bool{}, lost: map[string]int{}, spurious: map[string]int{}, seen: map[string]bool{}}
+		timeouts: map[string]int{}, toNames: map[string]enc.Name{}, fatal: map[string]int{}, nonces: map[string]bool{}, lost: map[string]int{}, spurious: map[string]int{}, seen: map[string]bool{}, finalSeg: map[string]int{}, pastReq: map[string]int{}}
 }
 
 func (in *inst) setup(sc *scenario) {
@@ -560,6 +594,9 @@ func (in *inst) setup(sc *scenario) {
 	in.cs = map[string]*csEnt{}
 	for _, p := range sc.Pubs {
 		in.produce(p)
+	}
+	for _, x := range sc.Ext {
+		in.putForeign(x)
 	}
 	for _, r := range sc.Rems {
 		in.remove(r)
@@ -599,8 +636,55 @@ func (in *inst) produce(p pub) {
 		in.bad("C15.bytes", "Produce fails for non-empty content", fmt.Sprintf("Produce(%s) returned error %v", p, err))
 		return
 	}
+	in.finalSeg[append(mkName(p.Obj, 0), enc.NewVersionComponent(ver)).String()] = (p.L - 1) / in.s.seg
 	in.checkProduced(p, ver, data, got)
 	in.recheckHeld("Produce(" + p.String() + ")")
+}
+
+// pastEnd: is n the name <object>/<version>/seg=<k> of a published (object, version) with k beyond
+// the FinalBlockId of its latest publication? Returns that FinalBlockId.
+func (in *inst) pastEnd(n enc.Name) (int, bool) {
+	if len(n) < 3 || n[len(n)-1].Typ != enc.TypeSegmentNameComponent || n[len(n)-2].Typ != enc.TypeVersionNameComponent {
+		return 0, false
+	}
+	fb, ok := in.finalSeg[n[:len(n)-1].String()]
+	if !ok || n[len(n)-1].NumberVal() <= uint64(fb) {
+		return 0, false
+	}
+	return fb, true
+}
+
+// foreignData builds a well-formed Data packet the way Produce does (blob, SHA-256 digest
+// signature, FreshnessPeriod 4 s) under the given name.
+func foreignData(n enc.Name, content []byte, fb int) []byte {
+	cfg := &ndn.DataConfig{ContentType: utils.IdPtr(ndn.ContentTypeBlob), Freshness: utils.IdPtr(4 * time.Second)}
+	if fb >= 0 {
+		c := enc.NewSegmentComponent(uint64(fb))
+		cfg.FinalBlockID = &c
+	}
+	d, err := spec.Spec{}.MakeData(n, cfg, enc.Wire{content}, sec.NewSha256Signer())
+	if err != nil {
+		panic(fmt.Sprintf("harness: cannot build Data %s: %v", n, err))
+	}
+	return d.Wire.Join()
+}
+
+// putForeign stores one packet of scenario.Ext in the producer's store (and in the reference
+// model: it is published, whoever asks for that name gets it).
+func (in *inst) putForeign(x ext) {
+	n := append(mkName(x.Obj, 0), enc.NewVersionComponent(uint64(x.Ver)), enc.NewSegmentComponent(uint64(x.Seg)))
+	content := make([]byte, x.N)
+	for i := range content {
+		content[i] = byte(0xE0 + i + x.Seg)
+	}
+	w := foreignData(n, content, x.FB)
+	if err := in.store.Put(n, uint64(x.Ver), w); err != nil {
+		in.bad("C15.stores", in.sc.Store+": Put returns an error", fmt.Sprintf("Put(%s) = %v", n, err))
+		return
+	}
+	in.ref[n.String()] = &refPkt{name: n, ver: uint64(x.Ver), wire: append([]byte(nil), w...)}
+	delete(in.removed, n.String())
+	in.recheckHeld("Put(" + x.String() + ")")
 }
 
 func (in *inst) get(n enc.Name, prefix bool) []byte {
@@ -833,13 +917,15 @@ func (in *inst) checkRec(rec *consumeRec) {
 	worst := 0
 	// only transmissions the network carried count as losses; a retransmission the network dropped
 	// because it repeated the nonce of an earlier transmission is the client's doing
+	// (Interests for segments beyond FinalBlockId are not part of the object: nothing that happens
+	// to them - no answer at all, a Nack - excuses a failure to deliver the object)
 	for n, c := range in.lost {
-		if pfx.IsPrefix(in.toNames[n]) && c > worst {
+		if pfx.IsPrefix(in.toNames[n]) && c > worst && in.pastReq[n] == 0 {
 			worst = c
 		}
 	}
 	for n, c := range in.fatal {
-		if c > 0 && pfx.IsPrefix(in.toNames[n]) {
+		if c > 0 && pfx.IsPrefix(in.toNames[n]) && in.pastReq[n] == 0 {
 			return // a Nack or an engine error for one of its Interests is final: failing is legal
 		}
 	}
@@ -849,7 +935,15 @@ func (in *inst) checkRec(rec *consumeRec) {
 			spur += c
 		}
 	}
-	if worst <= retries && spur > 0 {
+	past := 0
+	for n, c := range in.pastReq {
+		if pfx.IsPrefix(in.toNames[n]) {
+			past += c
+		}
+	}
+	if worst <= retries && past > 0 {
+		in.bad("C15.budget", "fetch fails within the retry budget after the consumer asked for a segment beyond FinalBlockId: what comes back for an Interest it should not have sent (Data past the end, or its timeouts) ends the fetch", fmt.Sprintf("%s completed with error %q; the most genuine losses any of its Interests had is %d (budget: %d retries); %s", rec.tgt, rec.err, worst, retries, in.pastNote))
+	} else if worst <= retries && spur > 0 {
 		in.bad("C15.budget", "fetch fails although the network lost nothing beyond the retry budget: Interests expire before a round trip within the assumed bound can complete", fmt.Sprintf("%s completed with error %q; the most genuine losses any of its Interests had is %d (budget: %d retries); %d timeouts hit packets the network had not lost: %s", rec.tgt, rec.err, worst, retries, spur, in.spurNote))
 	} else if worst <= retries && in.nonceDrops > 0 {
 		in.bad("C15.budget", "fetch fails within the retry budget: retransmissions repeat the nonce of an earlier transmission (or carry none) and are dropped as duplicates by the network", fmt.Sprintf("%s completed with error %q; the most genuine losses any of its Interests had is %d (budget: %d retries); %d retransmitted Interests were dropped by the network for repeating a (name, nonce) it had already carried", rec.tgt, rec.err, worst, retries, in.nonceDrops))
@@ -902,7 +996,15 @@ func (in *inst) answer(r *request) {
 	if replies > 1 {
 		in.bad("C15.once", "producer replies more than once to one Interest", fmt.Sprintf("%d replies to %s", replies, r.nameS))
 	}
-	if !fromCache && reply != nil {
+	phantom := false
+	if reply == nil && !fromCache && in.sc.Phantom && !r.cbp {
+		if fb, ok := in.pastEnd(r.name); ok {
+			// nobody published this name; a producer on the path answers past the end
+			reply, phantom = foreignData(r.name, []byte("past-the-end"), fb), true
+			in.phantoms++
+		}
+	}
+	if !fromCache && reply != nil && !phantom {
 		// the reply is what the producer handed to its engine: the consumer keeps working on these
 		// very bytes (the harness copies nothing between the two clients), the harness keeps a copy
 		in.hold(fmt.Sprintf("the reply to Interest %s", r.nameS), reply)
@@ -912,6 +1014,8 @@ func (in *inst) answer(r *request) {
 		if d, _, err := (spec.Spec{}).ReadData(enc.NewBufferReader(reply)); err == nil {
 			dn = d.Name().Clone()
 		}
+	} else if phantom {
+		dn = r.name.Clone()
 	} else {
 		dn = in.checkReply(r, interest, reply)
 		if in.sc.Cache && reply != nil && dn != nil {
@@ -1675,6 +1779,9 @@ func (s *sys) Canon(i any) string {
 		}
 	}
 	fmt.Fprintf(&b, "|dyn%v|t+%d|seq%d|down%v|", in.dynLog, abs, in.seqNext, in.ce.down)
+	if len(in.pastReq) > 0 {
+		fmt.Fprintf(&b, "past%d|", len(in.pastReq))
+	}
 	for _, r := range in.recs {
 		fmt.Fprintf(&b, "rec{%d %d %v %d %v %d}", r.calls, r.completed, r.err != nil, len(r.got), r.expKnown, r.expVer)
 	}
